@@ -1,12 +1,490 @@
-// Package c02 decides C02 (see /verif/DESIGN.md §7).
+// Package c02 decides C02: a full node converges to exactly the proposer's chain under any delivery order.
 package c02
 
-import "verifharness/vk"
+import (
+	"context"
+	"fmt"
+	"math/rand"
+	"os"
+	"sort"
+	"strings"
+	"sync"
+
+	"verifharness/monitors"
+	"verifharness/vk"
+	"verifharness/world"
+)
 
 // Level is the verification level claimed for this property.
 const Level = "exploration"
 
+// Sched is one delivery schedule for one chain.
+type Sched struct {
+	ID      int            `json:"id"`
+	Chain   int            `json:"chain"`
+	Shape   string         `json:"shape"`
+	Actions []world.Action `json:"actions"`
+}
+
+func (s Sched) String() string {
+	parts := make([]string, len(s.Actions))
+	for i, a := range s.Actions {
+		parts[i] = a.String()
+	}
+	return strings.Join(parts, " ")
+}
+
+// chain shapes: 'e' empty block, 'x' block with unique txs, 'r' block repeating the tx list of the previous 'x'/'r'
+func buildSpec(shape string, tag string) world.ChainSpec {
+	spec := world.ChainSpec{Initial: 1}
+	var last [][]byte
+	for i, c := range shape {
+		switch c {
+		case 'e':
+			spec.Blocks = append(spec.Blocks, nil)
+		case 'r':
+			if last == nil {
+				last = [][]byte{[]byte(tag + "-rep")}
+			}
+			spec.Blocks = append(spec.Blocks, last)
+		default:
+			n := 1 + i%3
+			txs := make([][]byte, n)
+			for j := range txs {
+				txs[j] = []byte(fmt.Sprintf("%s-b%d-t%d", tag, i, j))
+			}
+			last = txs
+			spec.Blocks = append(spec.Blocks, txs)
+		}
+	}
+	return spec
+}
+
+func randShape(rng *rand.Rand, n int, repeats bool) string {
+	b := make([]byte, n)
+	for i := range b {
+		switch p := rng.Intn(10); {
+		case p < 4:
+			b[i] = 'e'
+		default:
+			b[i] = 'x'
+		}
+		// runs of empties
+		if i > 0 && b[i-1] == 'e' && rng.Intn(2) == 0 {
+			b[i] = 'e'
+		}
+	}
+	if repeats {
+		// make at least one repeat
+		for k := 0; k < 1+rng.Intn(2); k++ {
+			i := 1 + rng.Intn(n-1)
+			b[i] = 'r'
+			if i > 0 && b[i-1] == 'e' {
+				b[i-1] = 'x'
+			}
+		}
+		if b[0] == 'r' {
+			b[0] = 'x'
+		}
+	}
+	return string(b)
+}
+
+type unit struct {
+	data bool
+	i    int
+}
+
+// genSched builds a mixed-ingress schedule with duplicates and restarts.
+func genSched(rng *rand.Rand, p *world.Produced, id, chain int, shape string) Sched {
+	n := len(p.Heights)
+	var units []unit
+	for i := 0; i < n; i++ {
+		units = append(units, unit{false, i})
+		if len(p.Txs[i]) > 0 || rng.Intn(4) == 0 {
+			units = append(units, unit{true, i})
+		}
+	}
+	mode := rng.Intn(6)
+	var acts []world.Action
+	var daUnits []unit
+	maxP2PH, maxP2PD := -1, -1
+	for _, u := range units {
+		ing := 0 // channel
+		switch mode {
+		case 0: // everything through channels
+		case 1: // everything through DA
+			ing = 1
+		case 2: // everything through P2P
+			ing = 2
+		default:
+			ing = rng.Intn(3)
+		}
+		if rng.Intn(25) == 0 {
+			continue // this part is never delivered through its primary ingress
+		}
+		switch ing {
+		case 0:
+			k := "ch-h"
+			if u.data {
+				k = "ch-d"
+			}
+			acts = append(acts, world.Action{Kind: k, I: u.i})
+			if rng.Intn(6) == 0 {
+				acts = append(acts, world.Action{Kind: k, I: u.i}) // duplicate
+			}
+		case 1:
+			if u.data && len(p.Txs[u.i]) == 0 {
+				continue // nothing is published on DA for an empty block
+			}
+			daUnits = append(daUnits, u)
+			if rng.Intn(6) == 0 {
+				daUnits = append(daUnits, u)
+			}
+		case 2:
+			if u.data {
+				if u.i > maxP2PD {
+					maxP2PD = u.i
+				}
+			} else if u.i > maxP2PH {
+				maxP2PH = u.i
+			}
+		}
+	}
+	// order of channel actions
+	switch rng.Intn(5) {
+	case 0: // reverse
+		sort.SliceStable(acts, func(a, b int) bool { return acts[a].I > acts[b].I })
+	case 1: // data before headers
+		sort.SliceStable(acts, func(a, b int) bool { return acts[a].Kind == "ch-d" && acts[b].Kind != "ch-d" })
+	case 2: // headers then data
+		sort.SliceStable(acts, func(a, b int) bool { return acts[a].Kind == "ch-h" && acts[b].Kind != "ch-h" })
+	default:
+		rng.Shuffle(len(acts), func(a, b int) { acts[a], acts[b] = acts[b], acts[a] })
+	}
+	// DA groups: many per height, out of block order
+	rng.Shuffle(len(daUnits), func(a, b int) { daUnits[a], daUnits[b] = daUnits[b], daUnits[a] })
+	var daActs []world.Action
+	for len(daUnits) > 0 {
+		k := 1 + rng.Intn(4)
+		if rng.Intn(5) == 0 {
+			k = len(daUnits)
+		}
+		if k > len(daUnits) {
+			k = len(daUnits)
+		}
+		a := world.Action{Kind: "da"}
+		for _, u := range daUnits[:k] {
+			a.DA = append(a.DA, world.Item{D: u.data, I: u.i})
+		}
+		daUnits = daUnits[k:]
+		daActs = append(daActs, a)
+		if rng.Intn(6) == 0 {
+			daActs = append(daActs, world.Action{Kind: "da"}) // an empty DA height
+		}
+	}
+	// P2P actions in increasing order
+	var p2pActs []world.Action
+	for k := 0; k <= maxP2PH; {
+		k += rng.Intn(3)
+		if k > maxP2PH {
+			k = maxP2PH
+		}
+		p2pActs = append(p2pActs, world.Action{Kind: "p2p-h", I: k})
+		k++
+	}
+	var p2pDActs []world.Action
+	for k := 0; k <= maxP2PD; {
+		k += rng.Intn(3)
+		if k > maxP2PD {
+			k = maxP2PD
+		}
+		p2pDActs = append(p2pDActs, world.Action{Kind: "p2p-d", I: k})
+		k++
+	}
+	// merge the four streams, keeping each stream's internal order
+	streams := [][]world.Action{acts, daActs, p2pActs, p2pDActs}
+	var out []world.Action
+	for {
+		var avail []int
+		for i, s := range streams {
+			if len(s) > 0 {
+				avail = append(avail, i)
+			}
+		}
+		if len(avail) == 0 {
+			break
+		}
+		i := avail[rng.Intn(len(avail))]
+		out = append(out, streams[i][0])
+		streams[i] = streams[i][1:]
+		if rng.Intn(12) == 0 {
+			out = append(out, world.Action{Kind: "restart"})
+		}
+	}
+	return Sched{ID: id, Chain: chain, Shape: shape, Actions: out}
+}
+
+func permutations(n int, f func([]int)) {
+	p := make([]int, n)
+	for i := range p {
+		p[i] = i
+	}
+	var rec func(k int)
+	rec = func(k int) {
+		if k == n {
+			f(p)
+			return
+		}
+		for i := k; i < n; i++ {
+			p[k], p[i] = p[i], p[k]
+			rec(k + 1)
+			p[k], p[i] = p[i], p[k]
+		}
+	}
+	rec(0)
+}
+
+// nonTrivial: at least one event out of height order or duplicated.
+func nonTrivial(s Sched) bool {
+	lastH, lastD := -1, -1
+	seen := map[string]bool{}
+	for _, a := range s.Actions {
+		k := a.String()
+		switch a.Kind {
+		case "ch-h":
+			if a.I < lastH || seen[k] {
+				return true
+			}
+			lastH = a.I
+		case "ch-d":
+			if a.I < lastD || seen[k] || a.I > lastH {
+				return true
+			}
+			lastD = a.I
+		case "da":
+			if len(a.DA) > 1 {
+				return true
+			}
+			for _, it := range a.DA {
+				if it.D && it.I > lastH {
+					return true
+				}
+				if !it.D {
+					if it.I < lastH {
+						return true
+					}
+					lastH = it.I
+				}
+			}
+		case "restart":
+			return true
+		}
+		seen[k] = true
+	}
+	return false
+}
+
+func hasRepeat(p *world.Produced) (bool, map[uint64]bool) {
+	seen := map[string]uint64{}
+	stall := map[uint64]bool{}
+	rep := false
+	for i, txs := range p.Txs {
+		if len(txs) == 0 {
+			continue
+		}
+		k := string(monitors.Commitment(txs))
+		if first, ok := seen[k]; ok {
+			rep = true
+			stall[first-1] = true
+			stall[p.Heights[i]-1] = true
+		} else {
+			seen[k] = p.Heights[i]
+		}
+	}
+	return rep, stall
+}
+
+// RunSched executes one schedule and judges it with W2.
+func RunSched(r *vk.Run, p *world.Produced, s Sched, withCacheDir bool) {
+	ctx := context.Background()
+	root := ""
+	for _, a := range s.Actions {
+		if a.Kind == "restart" {
+			withCacheDir = true // a clean stop saves the caches; it needs a directory to save them to
+		}
+	}
+	if withCacheDir {
+		root = world.TempDir(vk.Root(), "C02-*")
+		defer os.RemoveAll(root)
+	}
+	f, err := world.NewFN(ctx, p, root)
+	if err != nil {
+		r.Violation("startup", "full node failed to start: "+err.Error(), s)
+		return
+	}
+	defer f.L.Stop()
+	wit := func() any { return map[string]any{"schedule": s.String(), "chain_shape": s.Shape, "sched": s} }
+	rep, stallAt := hasRepeat(p)
+	var prev uint64
+	var viol []string
+	onlyConverged := true
+	for ai, a := range s.Actions {
+		if err := f.Do(a); err != nil {
+			if err == world.ErrWatchdog {
+				r.Inconclusive(fmt.Sprintf("watchdog at action %d of schedule %d", ai, s.ID))
+				return
+			}
+			viol = append(viol, fmt.Sprintf("action %d (%s): %v", ai, a, err))
+			onlyConverged = false
+			break
+		}
+		r.Count("events_delivered", 1)
+		h, probs := monitors.CheckFullNode(ctx, f, prev, false, r.Hit)
+		prev = h
+		for _, pr := range probs {
+			viol = append(viol, fmt.Sprintf("after action %d (%s): %s", ai, a, pr))
+			onlyConverged = false
+		}
+		if len(viol) > 0 {
+			break
+		}
+	}
+	if len(viol) == 0 {
+		if err := f.Settle(); err != nil {
+			if err == world.ErrWatchdog {
+				r.Inconclusive("watchdog at settle")
+				return
+			}
+			viol = append(viol, "settle: "+err.Error())
+			onlyConverged = false
+		} else {
+			h, probs := monitors.CheckFullNode(ctx, f, prev, true, r.Hit)
+			for _, pr := range probs {
+				viol = append(viol, "at quiescence: "+pr.String())
+				if pr.Clause != "converged" {
+					onlyConverged = false
+				}
+			}
+			_ = f.Stop()
+			for _, pr := range monitors.CheckHeightWritesAcross(f.Logs, r.Hit) {
+				viol = append(viol, pr.String())
+				onlyConverged = false
+			}
+			if len(viol) > 0 && rep && onlyConverged && stallAt[h] {
+				r.Finding("C02-repeated-txlist", "converged", fmt.Sprintf("chain %q repeats a non-empty tx list; node stalled at %d: %s", s.Shape, h, strings.Join(viol, " ;; ")), wit())
+				viol = nil
+			}
+		}
+	}
+	if len(viol) > 0 {
+		r.Violation(clauseOf(viol[0]), strings.Join(viol, " ;; "), wit())
+	}
+	r.Count("restarts", int64(f.Restarts))
+	r.Eval(fmt.Sprintf("%s|%s", s.Shape, s.String()), nonTrivial(s), map[string]any{"chain_shape": s.Shape, "schedule": s.String()})
+}
+
+func clauseOf(s string) string {
+	for _, c := range []string{"converged", "same-header", "same-txs", "same-root", "exec-order", "exec-txs", "height-monotone", "no-early-apply", "height-writes", "block-present", "state-height"} {
+		if strings.Contains(s, c) {
+			return c
+		}
+	}
+	return "convergence"
+}
+
+type job struct {
+	p     *world.Produced
+	s     Sched
+	cache bool
+}
+
 // Run is the check entry point.
 func Run(r *vk.Run) {
-	r.Rule = "not implemented yet"
+	world.Silence()
+	r.Rule = "chains produced by the real aggregator (shapes over e=empty, x=unique txs; 5-12 | 10-40 blocks) delivered to a real full node Manager with all its loops; (1) all permutations of the header/data events of 3-block (quick) and 4-block (thorough) chains through the event channels, (2) seeded mixed-ingress schedules: each part through channel injection, DA blobs (several per DA height, out of block order, empty DA heights) scanned by the real RetrieveLoop, or P2P store doubles read by the real store loops, with duplicates, omitted parts and clean restarts (SaveCache + new Manager); non-trivial = an event out of height order, duplicated, grouped on DA or a restart; distinct by (chain shape, action list). Separate trigger region: chains that repeat a non-empty tx list (finding C02-repeated-txlist)"
+	r.Assume("MemDS datastore double; execution double; delivery through the node's own channels/loops, not through libp2p gossip")
+	ctx := context.Background()
+	keys := world.NewKeys("proposer")
+	rng := r.Rand("chains")
+	var jobs []job
+	id := 0
+	// (1) exhaustive permutations on small chains
+	small := []string{"xx", "xex", "exx"}
+	if !r.Quick() {
+		small = []string{"xxx", "xex", "xee", "exe", "eex", "xxe"}
+	}
+	for ci, shape := range small {
+		p, err := world.ProduceChain(ctx, buildSpec(shape, fmt.Sprintf("s%d", ci)), keys)
+		if err != nil {
+			r.Violation("producer", "could not produce chain "+shape+": "+err.Error(), nil)
+			return
+		}
+		var evs []world.Action
+		for i := range p.Heights {
+			evs = append(evs, world.Action{Kind: "ch-h", I: i})
+			if len(p.Txs[i]) > 0 {
+				evs = append(evs, world.Action{Kind: "ch-d", I: i})
+			}
+		}
+		permutations(len(evs), func(perm []int) {
+			s := Sched{ID: id, Chain: ci, Shape: shape + "(perm)"}
+			for _, k := range perm {
+				s.Actions = append(s.Actions, evs[k])
+			}
+			id++
+			jobs = append(jobs, job{p, s, false})
+		})
+	}
+	r.Set("exhaustive_permutation_schedules", len(jobs))
+	// (2) seeded mixed-ingress schedules
+	nChains := r.N(12, 120)
+	per := r.N(25, 160)
+	for c := 0; c < nChains; c++ {
+		n := 5 + rng.Intn(8)
+		if !r.Quick() {
+			n = 10 + rng.Intn(31)
+		}
+		shape := randShape(rng, n, false)
+		p, err := world.ProduceChain(ctx, buildSpec(shape, fmt.Sprintf("c%d", c)), keys)
+		if err != nil {
+			r.Violation("producer", "could not produce chain "+shape+": "+err.Error(), nil)
+			return
+		}
+		for k := 0; k < per; k++ {
+			jobs = append(jobs, job{p, genSched(rng, p, id, c, shape), rng.Intn(2) == 0})
+			id++
+		}
+	}
+	// (3) trigger region: repeated tx lists
+	nRep := r.N(6, 40)
+	for c := 0; c < nRep; c++ {
+		shape := randShape(rng, 5+rng.Intn(6), true)
+		p, err := world.ProduceChain(ctx, buildSpec(shape, fmt.Sprintf("r%d", c)), keys)
+		if err != nil {
+			r.Violation("producer", "could not produce chain "+shape+": "+err.Error(), nil)
+			return
+		}
+		for k := 0; k < 5; k++ {
+			jobs = append(jobs, job{p, genSched(rng, p, id, 1000+c, shape), false})
+			id++
+		}
+	}
+	r.Require("converged", int64(len(jobs)/2))
+	var wg sync.WaitGroup
+	ch := make(chan job)
+	for w := 0; w < 14; w++ {
+		wg.Add(1)
+		go func() {
+			defer wg.Done()
+			for j := range ch {
+				RunSched(r, j.p, j.s, j.cache)
+			}
+		}()
+	}
+	for _, j := range jobs {
+		ch <- j
+	}
+	close(ch)
+	wg.Wait()
 }
